@@ -97,5 +97,7 @@ for n in names:
     for k in re.findall(r'key=(\S+)', m.get('check_result') or ''):
         if k not in keys:
             keys.append(k)
-    now = ', '.join('`%s`' % k for k in keys[:3]) or ('**not caught**' if not m.get('caught_by') else ','.join(m['caught_by']))
+    if str(m.get('status', '')).startswith('obsolete'):
+        keys = []
+    now = ('obsolete: ' + m['status'].split(':', 1)[1].strip()[:170] + ' …') if str(m.get('status', '')).startswith('obsolete') else ', '.join('`%s`' % k for k in keys[:3]) or ('**not caught**' if not m.get('caught_by') else ','.join(m['caught_by']))
     print('| %s | %s | %s | %s |' % (n, DESC.get(n, '?'), 'caught' if n in FIRST else 'missed', now))
